@@ -77,35 +77,56 @@ impl Sc for Fp {
 
 // ---- compound values over an exact tier --------------------------------------------------------
 
+/// Components of one compound value.  One time in eight the value is *structured* instead of generic: every
+/// component is 0 (half of them), +-1, or a generic value - axis-aligned vectors, basis quaternions, matrices with zero
+/// rows, columns or blocks and with repeated entries.  Exactly degenerate but valid inputs are where fast paths and
+/// guards live; independent draws essentially never produce two exact zeros in the same value.
 pub fn vec_n<S: Sc>(d: &mut Draw, n: usize) -> Vec<S> {
-    (0..n).map(|_| S::gen(d)).collect()
+    if d.int(0, 7) == 0 {
+        (0..n)
+            .map(|_| match d.int(0, 7) {
+                0..=3 => S::zero(),
+                4 => S::one(),
+                5 => -S::one(),
+                _ => S::gen(d),
+            })
+            .collect()
+    } else {
+        (0..n).map(|_| S::gen(d)).collect()
+    }
 }
 pub fn gv1<S: Sc>(d: &mut Draw) -> Vector1<S> {
     Vector1::new(S::gen(d))
 }
 pub fn gv2<S: Sc>(d: &mut Draw) -> Vector2<S> {
-    Vector2::new(S::gen(d), S::gen(d))
+    let c = vec_n::<S>(d, 2);
+    Vector2::new(c[0], c[1])
 }
 pub fn gv3<S: Sc>(d: &mut Draw) -> Vector3<S> {
-    Vector3::new(S::gen(d), S::gen(d), S::gen(d))
+    let c = vec_n::<S>(d, 3);
+    Vector3::new(c[0], c[1], c[2])
 }
 pub fn gv4<S: Sc>(d: &mut Draw) -> Vector4<S> {
-    Vector4::new(S::gen(d), S::gen(d), S::gen(d), S::gen(d))
+    let c = vec_n::<S>(d, 4);
+    Vector4::new(c[0], c[1], c[2], c[3])
 }
 pub fn gp1<S: Sc>(d: &mut Draw) -> Point1<S> {
     Point1::new(S::gen(d))
 }
 pub fn gp2<S: Sc>(d: &mut Draw) -> Point2<S> {
-    Point2::new(S::gen(d), S::gen(d))
+    let c = vec_n::<S>(d, 2);
+    Point2::new(c[0], c[1])
 }
 pub fn gp3<S: Sc>(d: &mut Draw) -> Point3<S> {
-    Point3::new(S::gen(d), S::gen(d), S::gen(d))
+    let c = vec_n::<S>(d, 3);
+    Point3::new(c[0], c[1], c[2])
 }
 pub fn grm<S: Sc>(d: &mut Draw, n: usize) -> RM<S> {
     let mut m = RM::zero(n);
+    let e = vec_n::<S>(d, n * n);
     for c in 0..n {
         for r in 0..n {
-            m.e[c][r] = S::gen(d);
+            m.e[c][r] = e[c * n + r];
         }
     }
     m
@@ -120,7 +141,8 @@ pub fn gm4<S: Sc>(d: &mut Draw) -> Matrix4<S> {
     mk_m4(&grm(d, 4))
 }
 pub fn gquat<S: Sc>(d: &mut Draw) -> Quaternion<S> {
-    Quaternion::new(S::gen(d), S::gen(d), S::gen(d), S::gen(d))
+    let c = vec_n::<S>(d, 4);
+    Quaternion::new(c[0], c[1], c[2], c[3])
 }
 
 /// all entries non-zero and pairwise different
@@ -156,8 +178,9 @@ pub fn unit_from<S: BaseFloat>(p: &RQ<S>) -> Option<RQ<S>> {
 /// small integer quaternion (not null); `spread` bounds the entries
 pub fn int_quat<S: Sc>(d: &mut Draw, spread: i64) -> RQ<S> {
     let mut p = [0i64; 4];
+    let structured = d.int(0, 7) == 0;
     for x in p.iter_mut() {
-        *x = d.int(-spread, spread);
+        *x = if structured && d.bool() { 0 } else { d.int(-spread, spread) };
     }
     if p == [0, 0, 0, 0] {
         p[0] = 1;
@@ -176,7 +199,8 @@ pub fn unit_quat<S: Sc>(d: &mut Draw) -> RQ<S> {
     }
 }
 fn loop_free_unit<S: Sc>(d: &mut Draw) -> RQ<S> {
-    let p = [S::gen(d), S::gen(d), S::gen(d), S::gen(d)];
+    let c = vec_n::<S>(d, 4);
+    let p = [c[0], c[1], c[2], c[3]];
     match unit_from(&p) {
         Some(u) => u,
         None => [S::one(), S::zero(), S::zero(), S::zero()],
@@ -200,15 +224,17 @@ pub fn circle_from_t<S: BaseFloat>(t: S) -> (S, S) {
 /// rational unit 3-vector: reflection of e_z in the direction p
 pub fn unit_vec3<S: Sc>(d: &mut Draw) -> [S; 3] {
     let (a, b, c) = if S::ORDERED {
-        let mut a = d.int(-7, 7);
-        let b = d.int(-7, 7);
-        let c = d.int(-7, 7);
+        let structured = d.int(0, 7) == 0;
+        let mut a = if structured && d.bool() { 0 } else { d.int(-7, 7) };
+        let b = if structured && d.bool() { 0 } else { d.int(-7, 7) };
+        let c = if structured && d.bool() { 0 } else { d.int(-7, 7) };
         if a == 0 && b == 0 && c == 0 {
             a = 1;
         }
         (S::i(a), S::i(b), S::i(c))
     } else {
-        (S::gen(d), S::gen(d), S::gen(d))
+        let v = vec_n::<S>(d, 3);
+        (v[0], v[1], v[2])
     };
     let n = a * a + b * b + c * c;
     if n == S::zero() {
@@ -269,6 +295,20 @@ pub fn named_sum(a: &Named, b: &Named) -> Named {
 // ---- f64 helpers -------------------------------------------------------------------------------
 
 pub fn f_unit3(d: &mut Draw) -> [f64; 3] {
+    if d.int(0, 7) == 0 {
+        // structured: on a coordinate axis or in a coordinate plane, zeros of either sign
+        let mut v = [0.0f64; 3];
+        for x in v.iter_mut() {
+            *x = match d.int(0, 7) {
+                0..=2 => 0.0,
+                3 => -0.0,
+                4 => 1.0,
+                5 => -1.0,
+                _ => d.f64_in(-1.0, 1.0),
+            };
+        }
+        return fnormalize3(&v);
+    }
     let z = d.f64_in(-1.0, 1.0);
     let phi = d.f64_in(0.0, 2.0 * std::f64::consts::PI);
     let r = (1.0 - z * z).max(0.0).sqrt();
@@ -285,6 +325,20 @@ pub fn fnormalize3(v: &[f64; 3]) -> [f64; 3] {
 }
 /// generic f64 unit quaternion [w,x,y,z]
 pub fn f_unit_quat(d: &mut Draw) -> [f64; 4] {
+    if d.int(0, 7) == 0 {
+        // structured: basis quaternions, pure rotations about a coordinate axis, vanishing components of either sign
+        let mut p = [0.0f64; 4];
+        for x in p.iter_mut() {
+            *x = match d.int(0, 7) {
+                0..=2 => 0.0,
+                3 => -0.0,
+                4 => 1.0,
+                5 => -1.0,
+                _ => d.f64_in(-1.0, 1.0),
+            };
+        }
+        return fnormalize4(&p);
+    }
     let p = [d.gauss(), d.gauss(), d.gauss(), d.gauss()];
     fnormalize4(&p)
 }
@@ -297,5 +351,17 @@ pub fn fnormalize4(p: &[f64; 4]) -> [f64; 4] {
     }
 }
 pub fn f_vec3(d: &mut Draw, lo: f64, hi: f64) -> [f64; 3] {
+    if d.int(0, 7) == 0 {
+        let mut v = [0.0f64; 3];
+        for x in v.iter_mut() {
+            *x = match d.int(0, 5) {
+                0 | 1 => 0.0,
+                2 => -0.0,
+                3 => 1.0,
+                _ => d.f64_in(lo, hi),
+            };
+        }
+        return v;
+    }
     [d.f64_in(lo, hi), d.f64_in(lo, hi), d.f64_in(lo, hi)]
 }
